@@ -159,6 +159,13 @@ add("C19", "server", "exploration",
     "and error responses; body, content type, encoding handling, CSP header presence and grammar, hidden-list enforcement and cache-control are judged against the property.",
     "CSP is judged as header text against an allow-list grammar, not by a browser. Environment = mockcore + loopback HTTP. Undocumented content encodings are only required not to yield 5xx.", "DESIGN.md sections 4 (E7) and 5 C19")
 
+add("C18", "server", "exploration",
+    "complete object x route enumeration against a live in-process server, field-by-field comparison with direct Index queries",
+    "A relations zoo (parents with 99 / 100 / 101 children revealed on one sat in one block, children of two parents, unbound / burned / fee-spent inscriptions, a rune with balances, three scripts) is indexed with "
+    "all indexes and served by the real Server::run; for EVERY inscription, unspent output, height, inscribed sat, rune, script and transaction every JSON and recursive route is requested (by id and number, every page, sat indices "
+    "-(k+1)..k) and compared with Index queries and the chain data; pagination must concatenate to the full list with correct `more` flags.",
+    "Truth is the same Index the server reads plus the harness's knowledge of the chain; HTML pages are not compared. Environment = mockcore + loopback HTTP.", "DESIGN.md sections 4 (E7) and 5 C18")
+
 NOT_YET = "check not built yet in this round (see DESIGN.md build order); not claimed"
 
 def main():
